@@ -201,6 +201,7 @@ func main() {
 		runLoopReplay(r, w, j)
 		if i == si {
 			saturation(r, w)
+			kmsPath(r, w)
 		}
 		r.Add("states", x.States)
 		r.Add("transitions", x.Transitions)
@@ -337,6 +338,37 @@ func compareRunLoop(r *ev.Run, w *proch.World, c *proch.Config, h []proch.Event)
 	rn.Close()
 	if k1 != k2 || outs1 != outs2 {
 		r.Violation("C13 run-loop: the real Run loop and the one-iteration dispatch hook disagree (harness binding broken or Run does more than dispatch)", fmt.Sprintf("%v: %s vs %s, outputs %d vs %d", pretty, k1, k2, outs1, outs2), proch.Replay{Config: *c, History: h, Pretty: pretty, Oracle: "C13-run-loop"})
+	}
+}
+
+// kmsPath: the node signs through the Cloud-KMS hand-over (DER signature -> parseSignature -> appendV, the real
+// functions of pkg/ecdsasigner). Ordinary chain messages whose signature has an r or an s with a leading zero
+// byte (1 digest in 128 each; found by search, 4 of each kind) and plain controls are observed: no panic, one
+// signed observation each, and the good suffix still publishes.
+func kmsPath(r *ev.Run, w *proch.World) {
+	var e vaa.Address
+	e[31] = 0x42
+	mk := func(seq uint64) proch.Msg { return proch.Msg{Seq: seq, Payload: []byte{1}, Emitter: e, Chain: 2, Target: 255} }
+	shortR, shortS, plain := proch.ShortScalarSeqs(0, mk, 4)
+	if len(shortR) < 4 || len(shortS) < 4 {
+		ev.Broken("kms path: no short-scalar signatures found")
+	}
+	w.KMSPath = true
+	defer func() { w.KMSPath = false }()
+	for kind, seqs := range map[string][]uint64{"r has a leading zero byte": shortR, "s has a leading zero byte": shortS, "full-length scalars": plain} {
+		for _, seq := range seqs {
+			nd := w.NewNodePrivateDB(0, 50)
+			nd.Step(proch.Set(0, 0))
+			out := nd.Step(mk(seq).Pub())
+			r.Add("kms_path_messages", 1)
+			rec := map[string]interface{}{"signature_shape": kind, "sequence": seq, "history": "Set({0}), Msg(seq) with the node signing through the KMS hand-over"}
+			if out.Panic != nil {
+				r.Violation("C13 kms path: an ordinary chain message panics the processor when the node signs through the Cloud KMS hand-over", fmt.Sprintf("%s: %v", kind, out.Panic), rec)
+			} else if len(out.Obs) != 1 {
+				r.Violation("C13 kms path: an ordinary chain message is not signed when the node signs through the Cloud KMS hand-over", fmt.Sprintf("%s: %d observations", kind, len(out.Obs)), rec)
+			}
+			nd.Close()
+		}
 	}
 }
 
